@@ -16,6 +16,7 @@ pub mod c11;
 pub mod c12;
 pub mod c13;
 pub mod c14;
+pub mod c16;
 pub mod lines;
 pub mod mixed;
 
@@ -39,6 +40,7 @@ pub fn run_property(id: &str, ctx: &Ctx) -> bool {
         "C12" => c12::run(ctx),
         "C13" => c13::run(ctx),
         "C14" => c14::run(ctx),
+        "C16" => c16::run(ctx),
         _ => return false,
     }
     true
@@ -60,6 +62,7 @@ pub fn replay_property(id: &str, w: &mut Worker, sub: &str, case: &serde_json::V
         "C12" => c12::replay(w, sub, case),
         "C13" => c13::replay(w, sub, case),
         "C14" => c14::replay(w, sub, case),
+        "C16" => c16::replay(w, sub, case),
         _ => None,
     }
 }
